@@ -1,4 +1,4 @@
-(* C10  Status views never fail and never advertise a skill that would be rejected.  Model: Model/Comp.v; views are total functions of the state by construction (Python exceptions are outside the model and are monitored on the implementation).  C10_time_left_nonneg: validity never reports a negative remaining time.  C10_valid_accepts: for every modelled class except the key-down one, whenever validity reports the skill usable, use returns no rejection.  Key-down skills: C10_keydown_valid_accepts under the invariant 'a running key-down implies a cooldown at least as long' (kd_inv), C10_keydown_invariant: kd_inv is preserved by use/elapse/stop whenever the applied cooldown is at least the maximum key-down time; C10_keydown_refuted: without that parameter condition the statement is false (a cooldown-free key-down skill is advertised while running and then rejected) - recorded as a known finding for the shipped skill that has such parameters.  C10_stack_hidden_when_off: the running view reports stack 0 when the buff is off. *)
+(* C10  Status views never fail and never advertise a skill that would be rejected.  Model: Model/Comp.v; views are total functions of the state by construction (Python exceptions are outside the model and are monitored on the implementation).  C10_time_left_nonneg: validity never reports a negative remaining time.  C10_valid_accepts: for EVERY modelled class (including key-down skills, whose validity since the repair de960db also tests that the key-down is not running), all parameters and all states: whenever validity reports the skill usable, use returns no rejection.  C10_keydown_validity_mirrors_use: for key-down skills validity is exactly 'use would not be rejected'.  C10_keydown_running_not_advertised: the former finding's witness (a cooldown-free key-down skill) is not advertised while running.  C10_stack_hidden_when_off: the running view reports stack 0 when the buff is off. *)
 From Coq Require Import ZArith List Bool. From V.Model Require Import Comp. From V.Proofs Require Import CompReject CompViews.
 
 Theorem C10_time_left_nonneg :
@@ -7,31 +7,20 @@ Proof. exact @validity_time_left_nonneg. Qed.
 
 Theorem C10_valid_accepts :
   forall (c : comp) (p : par) (t : Z) (s s' : ust) (es : list ev),
-        c <> KeydownSkill ->
         v_valid (view_validity c p s) = true ->
         reduce_spec c MUse p t s = Some (s', es) -> rejected es = false.
 Proof. exact @valid_accepts. Qed.
 
-Theorem C10_keydown_valid_accepts :
-  forall (p : par) (t : Z) (s s' : ust) (es : list ev),
-        kd_inv s ->
-        v_valid (view_validity KeydownSkill p s) = true ->
-        reduce_spec KeydownSkill MUse p t s = Some (s', es) -> rejected es = false.
-Proof. exact @keydown_valid_accepts. Qed.
+Theorem C10_keydown_validity_mirrors_use :
+  forall (p : par) (s : ust),
+        v_valid (view_validity KeydownSkill p s) = negb (rejected (snd (use_keydown_trait p s))).
+Proof. exact @keydown_validity_mirrors_use. Qed.
 
-Theorem C10_keydown_invariant :
-  forall (m : meth) (p : par) (t : Z) (s s' : ust) (es : list ev),
-        p_maxkd p <= p_cdA p ->
-        0 <= t -> kd_inv s -> reduce_spec KeydownSkill m p t s = Some (s', es) -> kd_inv s'.
-Proof. exact @kd_inv_preserved. Qed.
-
-Theorem C10_keydown_refuted :
-  exists (p : par) (s s1 : ust) (e1 : list ev) (s2 : ust) (e2 : list ev),
-          reduce_spec KeydownSkill MUse p 0 s = Some (s1, e1) /\
-          rejected e1 = false /\
-          v_valid (view_validity KeydownSkill p s1) = true /\
-          reduce_spec KeydownSkill MUse p 0 s1 = Some (s2, e2) /\ rejected e2 = true.
-Proof. exact @keydown_valid_accepts_refuted. Qed.
+Theorem C10_keydown_running_not_advertised :
+  exists (s1 : ust) (e1 : list ev),
+          reduce_spec KeydownSkill MUse kd0_par 0 kd0_state = Some (s1, e1) /\
+          rejected e1 = false /\ v_valid (view_validity KeydownSkill kd0_par s1) = false.
+Proof. exact @keydown_running_not_advertised. Qed.
 
 Theorem C10_stack_hidden_when_off :
   forall (c : comp) (p : par) (s : ust) (r : running),
@@ -39,13 +28,13 @@ Theorem C10_stack_hidden_when_off :
 Proof. exact @running_stack_nonneg_when_off. Qed.
 
 Theorem C10_nonvacuous :
-  v_valid (view_validity AttackSkill kd0_par kd0_state) = true /\ kd_inv kd0_state.
+  v_valid (view_validity AttackSkill kd0_par kd0_state) = true /\
+        v_valid (view_validity KeydownSkill kd0_par kd0_state) = true.
 Proof. exact @valid_state_exists. Qed.
 
 Print Assumptions C10_time_left_nonneg.
 Print Assumptions C10_valid_accepts.
-Print Assumptions C10_keydown_valid_accepts.
-Print Assumptions C10_keydown_invariant.
-Print Assumptions C10_keydown_refuted.
+Print Assumptions C10_keydown_validity_mirrors_use.
+Print Assumptions C10_keydown_running_not_advertised.
 Print Assumptions C10_stack_hidden_when_off.
 Print Assumptions C10_nonvacuous.
